@@ -194,6 +194,20 @@ def _run_main(res, ctx):
                     res.break_("correspondence", {"program": s.decode(), "diff": diff})
         # a settings section that does not mention tmp_dirs keeps the default directories (found by tools/mutation: the `"tmp_dirs" in config` guard and
         # the default assignment could be mutated without any check noticing)
+        # an explicitly EMPTY list of temp directories means: none — no literal is a temp path (seeded change C16-m9 fell back to the defaults with `or`)
+        cfgfile4 = scratch.fresh("c4.yaml", yaml.safe_dump({"hardcoded_tmp_directory": {"tmp_dirs": []}}).encode())
+        srcs4 = [b"a = '/tmp/x'\n", b"a = '/var/tmp/y'\n", b"a = '/dev/shm/z'\n", b"a = ''\n", b"def f(p='/tmp/q'): pass\n"]
+        real4 = C.batch_real_scan(scratch, srcs4, config_file=cfgfile4)
+        model4 = d.ask_many([C.scan_request(s, plugin_cfg={"hardcoded_tmp_directory": {"tmp_dirs": []}}) for s in srcs4]) if d is not None else None
+        for i, s in enumerate(srcs4):
+            got = any(f[0] == "B108" for f in real4[i]["findings"])
+            res.case(("cfg-tmp-empty", s), True)
+            if got or real4[i]["errors"]:
+                res.violation("B108 reports (or raises) although the configured list of temp directories is empty", {"program": s.decode(), "settings": {"tmp_dirs": []}, "errors": real4[i]["errors"]})
+            if model4 is not None and "error" not in model4[i]:
+                diff = C.compare_scan(real4[i], model4[i], C.blacklist_ids())
+                if diff:
+                    res.break_("correspondence", {"program": s.decode(), "settings": {"tmp_dirs": []}, "diff": diff})
         for cfgv in ({}, {"other_option": 1}):
             cfgfile3 = scratch.fresh("c3.yaml", yaml.safe_dump({"hardcoded_tmp_directory": cfgv, "skips": []}).encode())
             srcs3 = [b"a = '/tmp/x'\n", b"a = '/var/tmp/y'\n", b"a = '/dev/shm/z'\n", b"a = '/scratch/x'\n", b"a = 'tmp'\n"]
